@@ -12,6 +12,7 @@ CONSTANTS Family = "bsc"
           MaxStored = 4
           MaxLen = 5
           EmitOn = FALSE
+          TwoBranch = FALSE
           TraceLen = 0
 VIEW View
 INVARIANT PropC29
